@@ -1407,6 +1407,56 @@ def apply(tree, rel):
   return n
 
 
+def _single_exit_to_returns(fn):
+  """`if c: r = A` / `else: r = B` followed by `return r` (r used nowhere else)
+  is `if c: return A` / `else: return B`: the single-exit spelling of a choice."""
+  def ends_with_assign(stmts, r):
+    if not stmts:
+      return False
+    last = stmts[-1]
+    if isinstance(last, ast.Assign) and len(last.targets) == 1 and isinstance(
+        last.targets[0], ast.Name) and last.targets[0].id == r:
+      return True
+    if isinstance(last, ast.If) and last.orelse:
+      return ends_with_assign(last.body, r) and ends_with_assign(last.orelse, r)
+    return False
+
+  def push(stmts, r):
+    last = stmts[-1]
+    if isinstance(last, ast.Assign):
+      stmts[-1] = ast.copy_location(ast.Return(value=last.value), last)
+    else:
+      push(last.body, r)
+      push(last.orelse, r)
+
+  def rec(stmts):
+    for st in stmts:
+      if isinstance(st, (ast.FunctionDef, ast.AsyncFunctionDef, ast.ClassDef)):
+        continue
+      for f in ('body', 'orelse', 'finalbody'):
+        b = getattr(st, f, None)
+        if isinstance(b, list) and b and isinstance(b[0], ast.stmt):
+          rec(b)
+      for h in getattr(st, 'handlers', []) or []:
+        rec(h.body)
+    for i in range(len(stmts) - 1):
+      a, b = stmts[i], stmts[i + 1]
+      if isinstance(a, ast.If) and a.orelse and isinstance(b, ast.Return) and isinstance(
+          b.value, ast.Name) and ends_with_assign(a.body, b.value.id) and \
+          ends_with_assign(a.orelse, b.value.id):
+        r = b.value.id
+        uses = [x for x in ast.walk(fn) if isinstance(x, ast.Name) and x.id == r and
+                isinstance(x.ctx, ast.Load)]
+        if len(uses) != 1:
+          continue
+        push(a.body, r)
+        push(a.orelse, r)
+        del stmts[i + 1]
+        ast.fix_missing_locations(fn)
+        return rec(stmts)
+  rec(fn.body)
+
+
 class _Idioms(ast.NodeTransformer):
   """Spelling variants with one meaning, brought to one form:
        x.get(k, None) -> x.get(k)          set((a,)) / set([a]) -> {a}
@@ -1416,6 +1466,7 @@ class _Idioms(ast.NodeTransformer):
     self.__dict__.setdefault('_fns', []).append(n)
     self.generic_visit(n)
     self._fns.pop()
+    _single_exit_to_returns(n)
     return n
 
   def visit_If(self, n):
